@@ -129,8 +129,15 @@ static void on_sanitizer_death(void) {
 	(void) !write(g_verdict_fd, s.data(), s.size());
 }
 
+static bool g_hang_ok = false;
+void hang_is_inconclusive(bool on) { g_hang_ok = on; }
+
 static void on_fatal(const char *kind, const char *detail) {
 	std::string k = kind;
+	if (k == "hang" && g_hang_ok && !g_ctx->in_process) {
+		g_ctx->tag("call-did-not-finish-within-the-virtual-time-budget(not-asserted-here)");
+		g_ctx->finish_ok();
+	}
 	std::string m = (k == "hang" ? "HANG (virtual-time budget exceeded; a call polls or sleeps forever): "
 	                             : "DEADLOCK (wait-for cycle / no thread can ever run): ");
 	g_ctx->fail(m + detail);
